@@ -119,11 +119,43 @@ class TseitinTransformation:
     def goal2intcnf(self, goal: z3.Goal) -> list[list[int]]:
         cnf = []
         for expr in goal:
-            if z3.is_or(expr):
-                cnf.append([self.expr_to_signed_id(x) for x in expr.children()])
-            else:
-                cnf.append([self.expr_to_signed_id(expr)])
+            literals = expr.children() if z3.is_or(expr) else [expr]
+            clause = []
+            satisfied = False
+            for literal in literals:
+                # The tactic leaves the constants True/False (possibly negated) in the
+                # goal; they are truth values, not propositional variables.
+                value = self.constant_value(literal)
+                if value is True:
+                    satisfied = True
+                    break
+                if value is False:
+                    continue
+                clause.append(self.expr_to_signed_id(literal))
+            if satisfied:
+                continue
+            if not clause:
+                # empty clause: unsatisfiable, expressed with a dedicated variable
+                pool = cast(IDPool, self.epistemic_state["pool"])  # type: ignore[assignment]
+                false_id = pool.id("tseitin_false")  # type: ignore[no-any-return]
+                cnf.append([false_id])
+                cnf.append([-false_id])
+                continue
+            cnf.append(clause)
         return cnf
+
+    @staticmethod
+    def constant_value(expr: z3.ExprRef) -> bool | None:
+        """Truth value of a (possibly negated) Boolean constant, None for anything else."""
+        negated = False
+        while z3.is_not(expr):
+            negated = not negated
+            expr = expr.children()[0]
+        if z3.is_true(expr):
+            return not negated
+        if z3.is_false(expr):
+            return negated
+        return None
 
     """
     Takes z3 expression and creates or retrieves unique ID of expression using pysat.formula.IDPool
